@@ -29,6 +29,7 @@ type Profile struct {
 	EarlyIncmp         bool // some nodes start with INCMP lines, in front of their first HALT (input handled on entry)
 	Interleave         bool // non-INCMP instructions between INCMP lines
 	TailMove           bool // MOVE after the INCMP list
+	TailCall           bool // LOAD/RELOAD as the last instruction, behind the INCMP list
 	Relative           bool // _ ^ . > < targets
 	EmptyResults       bool
 	FlagCounts         []uint32
@@ -411,6 +412,14 @@ func (g *gen) node(i int, name string, names []string) *Node {
 			if f, ok := g.pickFlag(); ok {
 				code = append(code, codec.Ins{Op: codec.CATCH, S1: vk.Pick(r, []string{"_", "^", "."}), N: f, Mode: true})
 			}
+		}
+	}
+	if p.TailCall && r.Chance(1, 4) {
+		// an external call is the last thing the node does when no INCMP matched (or it ends the node outright)
+		if len(loaded) > 0 && r.Bool() {
+			code = append(code, codec.Ins{Op: codec.RELOAD, S1: vk.Pick(r, loaded).name})
+		} else {
+			g.loads(&code, 1)
 		}
 	}
 	if p.TailMove && r.Chance(1, 6) {
